@@ -1,1 +1,32 @@
-fn main(){}
+//! `gen C15|C16|C17 quick|thorough` / `gen replay <id> <file>`: generated-program checks.
+//!
+//! Cases are drawn from proptest strategies (RNG seeded from VERIF_SEED), printed as Rust source,
+//! compiled against /repo's working tree in batches and executed; the oracle runs inside the generated
+//! program (differential macro vs builder, or vs the dynamic reference model). Ill-formed inputs are
+//! compiled in a separate file and every one of them must be rejected by the compiler.
+
+mod c15;
+mod c16;
+mod c17;
+mod harness;
+
+use mv_engine::Run;
+
+fn main() {
+    let args: Vec<String> = std::env::args().skip(1).collect();
+    let Some(mut run) = Run::from_args(&args) else {
+        eprintln!("usage: gen <C15|C16|C17> [quick|thorough] | gen replay <Cnn> <file>");
+        std::process::exit(2);
+    };
+    mv_engine::quiet_panics();
+    match run.id.as_str() {
+        "C15" => c15::c15(&mut run),
+        "C16" => c16::c16(&mut run),
+        "C17" => c17::c17(&mut run),
+        other => {
+            eprintln!("unknown property {other}");
+            std::process::exit(2);
+        }
+    }
+    std::process::exit(run.finish());
+}
